@@ -407,7 +407,7 @@ def oracle_part(pid, tier, seed, start=0):
         o = obligation("%s/bounded:%s" % (pid, what), False, reason="%s on %s: %s" % (vs[0]["what"], vs[0]["net"], vs[0]["detail"]), props=(pid,), clause="bounded")
         path = write_text_replay(pid, k, "%s bounded stand-in: %s" % (pid, what), dict(property=pid, native=vs[:10]), cmd)
         violations.append(dict(obligation=o, path=path, reproduced=True, case={"native": vs[:3]}))
-    entry = dict(function="native oracle for %s (pyvc/native_oracles.py)" % pid, bound=nat.get("bound", ""), cases=nat["checks"],
+    entry = dict(function="native oracle for %s (pyvc/native_oracles.py)" % pid, bound=nat.get("bound", ""), cases=nat["checks"], distinct=nat.get("distinct", 0),
                  violations=len(nat["violations"]), kind="bounded stand-in: definitions computed independently from the raw tables / networkx / numpy")
     return entry, violations
 
@@ -426,28 +426,23 @@ for _p in ("C14", "C19", "C10", "C11", "C09"):
     EXTRA[_p] = with_oracle(_p)
 
 
-def c16_lean(pid, tier, seed):
-    """Index decoders of the skip-sampling generators: Lean definitions generated from the real return expressions,
-    spec functions + proofs checked by Lean's kernel (pyvc/leanvc.py, pyvc/lean/decode_theorems.lean)."""
+def _lean(pid, notes):
     from . import leanvc
-    res, ver, defs = leanvc.run(os.path.join(ROOT, "out", pid, "lean" if os.path.realpath(extract.REPO) == "/repo" else "lean-scratch"))
-    obs = []
-    for r in res:
-        o = obligation("C16/lean:%s/%s" % (r["function"], r["name"].split(":")[-1]), r["status"] == "discharged", reason=r["reason"],
-                       where=leanvc.UNIFORM + r["function"], secs=r["secs"], props=("C16",), clause=r["theorem"])
-        o["status"] = r["status"]  # `unknown`: a failed Lean proof is undecided, never a refutation
-        o["backend"] = "lean4 kernel (%s; Mathlib tactics ring/linarith/simp/omega)" % ver.split(",")[0].replace("Lean (version ", "Lean ")
-        o["kind"] = "lemma"
-        obs.append(o)
-    return dict(obligations=obs, violations=[], bounded=[], functions=sorted({"uniform." + r["function"] for r in res}),
-                trusted=["AST -> Lean translation of the decoder return expressions (pyvc/leanvc.py): " + "; ".join(leanvc.ASSUMPTIONS),
-                         "Lean 4 kernel and the Mathlib lemmas the proofs cite (axioms allowed: propext, Classical.choice, Quot.sound; checked with #print axioms)"],
-                assumptions=["decoder extraction drops: " + "; ".join(leanvc.DROPS),
-                             "_index_to_edge_comb (binomial unranking, while loop) is not under a Lean contract: bounded oracle only",
-                             "the generators that call the decoders (skip sampling, probabilities, seeds) are covered by the bounded oracle only"])
+    return leanvc.provider(pid, notes)
 
 
-EXTRA["C16"] = with_oracle("C16", c16_lean)
+EXTRA["C16"] = with_oracle("C16", _lean("C16", [
+    "_index_to_edge_comb (binomial unranking, while loop) is not under a Lean contract: bounded oracle only",
+    "the generators that call the decoders (skip sampling, probabilities, seeds) are covered by the bounded oracle only"]))
+EXTRA["C13"] = with_oracle("C13", _lean("C13", [
+    "only the sign bookkeeping of boundary_matrix is under contract (every entry is +-1; the two routes to each codimension-2 face cancel, in the "
+    "general branch and across the order-1 branch): this is the algebraic core of `consecutive boundary matrices multiply to zero`",
+    "column support (exactly k+1 entries at the faces), index maps, vertex sorting for mixed labels, hodge_laplacian symmetry / PSD and the kernel dimension "
+    "are covered by the bounded oracle only (exhaustive complexes on <= 4 vertices x orientation assignments)"]))
+EXTRA["C15"] = with_oracle("C15", _lean("C15", [
+    "only the normalisation count _max_number_of_subfaces is under contract; the Trie, EdgeView.maximal, the inclusion-exclusion over overlapping maximal faces "
+    "and the three measures themselves are covered by the bounded oracle only (brute-force enumeration on exhaustive small hypergraphs)"]))
+
 
 
 def c09_typed(pid, tier, seed):
